@@ -285,6 +285,21 @@ def _listing_meta(ck: Checker) -> None:
             ups = [(n, c) for n in g.nodes.values() for c in calls_at(n) if is_method_call(c, "update") and norm(c.func.value) == row]
             meta_up = [n for n, c in ups if c.args and norm(c.args[0]).endswith("meta.to_dict()")]
             hash_up = [n for n, c in ups if n not in meta_up]
+            # form C: the row starts as the meta part:  row = meta.to_dict() if with_meta else {}
+            for n in g.nodes.values():
+                if n.kind == "stmt" and isinstance(n.ast, (ast.Assign, ast.AnnAssign)) and getattr(n.ast, "value", None) is not None \
+                        and norm(n.ast.targets[0] if isinstance(n.ast, ast.Assign) else n.ast.target) == row:
+                    v = n.ast.value
+                    if norm(v).endswith("meta.to_dict()"):
+                        meta_up.append(n)
+                    elif isinstance(v, ast.IfExp) and norm(v.test) == "with_meta" and norm(v.body).endswith("meta.to_dict()") and norm(v.orelse) == "{}":
+                        meta_up.append(None)
+            if None in meta_up:
+                meta_up = [n for n in meta_up if n is not None]
+                if not meta_up and hash_up:
+                    before = all(avoiding_path(g, p_.id, lambda x, h=h: x.id == h.id, start=p_.loops[-1] if p_.loops else None) is None for h in hash_up)
+                    ok = before
+                    continue
             if meta_up and hash_up:
                 from ..an import cut
 
